@@ -884,6 +884,45 @@ def r10(k: Kit) -> None:
     rep.floor('C01.R10', 'raise sites in the stream readers', n, 3)
 
 
+def r12(k: Kit) -> None:
+    """The Poly1305 key is a one-time key."""
+    rep = k.rep
+    idx = k.idx
+    rep.rule('C01.R12', 'chacha20-poly1305: in crypto/chacha.py every '
+             'Poly1305 generate_tag / verify_tag gets a key that is the '
+             'result of poly1305_key(..., nonce) computed in the same call '
+             'with the packet\'s nonce, and no object field holds a derived '
+             'Poly1305 key: a key reused for two packets lets an observer '
+             'solve for (r, s) and forge tags')
+    mod = idx.module('crypto.chacha')
+    n = 0
+    for fi in idx.iter_funcs(['crypto.chacha']):
+        g = k.cfg(fi)
+        rd = k.rd(fi)
+        for nd, c in k.call_nodes(fi, lambda c: is_call(c, 'generate_tag') or
+                                  is_call(c, 'verify_tag')):
+            n += 1
+            leaves, free = expr_sources(g, rd, nd.id, c.args[0])
+            okk = bool(leaves) and all(
+                is_call(l, 'poly1305_key') and any(
+                    'nonce' in names_read(a) for a in l.args)
+                for l in leaves)
+            rep.check(okk, 'C01.R12', key(fi, 'one-time Poly1305 key'),
+                      'key = poly1305_key(key, nonce) of this packet',
+                      f'`{norm(c.args[0])}` is not derived from this '
+                      'packet\'s nonce in this call (a cached or passed-in '
+                      'key): the same (r, s) authenticates more than one '
+                      'packet', k.loc(fi, nd))
+        for x in ast.walk(fi.node):
+            if isinstance(x, ast.Assign) and is_call(x.value, 'poly1305_key') \
+                    and any((dotted(t) or '').startswith('self.')
+                            for t in x.targets):
+                rep.violation('C01.R12', key(fi, 'Poly1305 key kept'),
+                              f'`{norm(x)}` keeps a derived Poly1305 key in '
+                              'the cipher object', fi.loc(x))
+    rep.floor('C01.R12', 'Poly1305 tag operations', n, 2)
+
+
 def run(idx, rep, tier):
     k = Kit(idx, rep)
     rep.assumptions += NOT_DECIDED
@@ -895,6 +934,7 @@ def run(idx, rep, tier):
     r7(k)
     r9(k)
     r10(k)
+    r12(k)
     # R8: the two directions use different integrity / encryption keys and
     # each direction its own parameters: = C02.R2 (key schedule by data flow)
     from .c02 import r2 as c02r2
